@@ -18,17 +18,20 @@ TEXT = {
             "on the input path is guarded by its enumerated guard and nothing else touches the raw-pointer buffer "
             "(N: UG); input-sized allocations are bounded by a constant (N: AB); every byte the encoder writes with "
             "write_all is valid UTF-8 (S: U8); explicit panic calls are guarded and str byte-offset slicing uses only "
-            "offsets that are char boundaries (N: PX). Not decided: index/overflow "
-            "panics, termination of numeric loops.",
+            "offsets that are char boundaries (N: PX); no usize subtraction of the curve length fit can go below zero under "
+            "the symbolically tracked vector lengths (N: LS). Not decided: index/overflow "
+            "panics elsewhere, termination of numeric loops.",
             "error-provenance and swallow dataflow, unsafe-guard dominance, allocation-bound backward slices over MIR"),
     'C02': ("Partial, table level (N): every key the decoder reads is written by the writer of the same section "
             "(minus the statement's own exclusions), from the field the decoder stores it in; literal key text and "
             "numeric enum encodings are read back to the same key/variant; values of the key/value, event and colour "
             "sections are written as stored (no rounding/cast/arithmetic, K7); spinner/hold end-time separator by kind "
             "(K8); encoder redundancy tolerance not coarser than the decoder's (K9); records are lines (K10); list "
-            "fields written whole (K11); conversions copy fields unmodified (DG-D6); section "
-            "headers are recognised. Not "
-            "decided: equality of decoded values (control-point merge, path serialisation, float text).",
+            "fields written whole (K11); a key omitted for a value is omitted only for the decoder's default (K12); timing-line "
+            "columns read the control point kind they are decoded into (K13); slider path: type letters, segment decision on "
+            "the whole path type, letter followed by the position-dependent separator (K5); conversions copy fields "
+            "unmodified (DG-D6); section headers are recognised. Not "
+            "decided: equality of decoded values (control-point merge, float text).",
             "encoder/decoder key-table agreement over typed HIR (format_args templates decoded) and MIR"),
     'C03': ("Partial (N): the value of a key/value line is the remainder after the first colon; the six key/value "
             "parsers split only through that one function; metadata lines are not comment-stripped (also not by a "
@@ -42,7 +45,8 @@ TEXT = {
             "decoder's header table maps to that section; no other bracketed header is written; literal keys are "
             "accepted; values are written with plain `{}` (N: K7); a spinner's end time is followed by `,` and a hold's "
             "by `:` by kind alone (N: K8); every begun "
-            "record line is ended before the next record (N: K10). Not decided: that every record line is accepted "
+            "record line is ended before the next record (N: K10); event type numbers (K4), slider path letters and "
+            "separators (K5), timing-line column sources (K13). Not decided: that every record line is accepted "
             "by its parser (value-level; the known "
             "trailing-type-letter defect F3 is not visible to this technique).",
             "ordered write-event extraction from typed HIR + header-table agreement"),
@@ -51,7 +55,9 @@ TEXT = {
             "dominates parser call on the same line; a skipped line only leads to the next read; the section loop "
             "ends only at end of input/I-O error; parser results cannot influence control flow; no impl overrides "
             "the driver; the parser is re-chosen from every header parse_section returns and dispatched on that header; "
-            "LF delimiter and trailing trim; skip rule and version-line decision tables (N: SC-C05); the "
+            "LF delimiter and trailing trim; the same line-loop facts as one symbolic decision table over (read_line result, "
+            "skip?, header?) that also holds for classify-then-act pipelines; the version search stops at the first non-blank "
+            "line; skip rule and version-line decision tables (N: SC-C05); the "
             "line buffers are cleared before they are appended to (S: LB). Not decided: BOM/CRLF behaviour as "
             "values.",
             "dominance and reachability checks on the driver's MIR + match-table extraction from HIR"),
@@ -78,11 +84,12 @@ TEXT = {
             "forward path exploration of io::Result values over MIR (typestate of Result/ControlFlow holders)"),
     'C11': ("Partial (N): numeric conversions in the six parsers go through the limit-checking parser (exceptions "
             "enumerated with reasons); the five flag keys are `== 1`; slider multiplier / tick rate clamps; break end "
-            ">= start; limit constant; background precedence (background unconditional, sprite only while empty, video "
-            "only under a negated extension test, the 7 extensions); Mode = exact texts 0..3; Combo* keys by prefix; "
+            ">= start and every parsed break stored; limit constant; background precedence as a symbolic decision table "
+            "(background always, sprite only while none is set, video only with a 3-byte non-video extension, other kinds "
+            "never; the 7 extensions); Mode = exact texts 0..3; Combo* keys by prefix; "
             "bookmark entries skipped, not cut or reordered; value "
-            "splitting (KV). 'Invalid values leave the field untouched' is C06 (EA). Not decided: how the extension is "
-            "extracted, last-valid-occurrence-wins as behaviour.",
+            "splitting (KV). 'Invalid values leave the field untouched' is C06 (EA). Not decided: "
+            "last-valid-occurrence-wins as behaviour.",
             "spec-constant backward slices and numeric-funnel callee checks over MIR/HIR"),
     'C12': ("Partial (N/S): clamp constants of the four point constructors and the mode-gated scroll speed; the "
             "parser builds points only through the clamping constructors; the NaN test dominates timing-point "
@@ -97,15 +104,17 @@ TEXT = {
             "with its documented fallback. "
             "Not decided: that is_redundant compares the right values.",
             "sibling-agreement extraction over MIR/HIR against a small expected table"),
-    'C14': ("Partial (N): flag constants and kind precedence circle>slider>spinner>hold; coordinate/length limits "
+    'C14': ("Partial (N): flag constants; kind precedence circle>slider>spinner>hold as a symbolic table over the four kind bits; "
+            "perfect-curve downgrade table and collinearity formula; hit-sound byte -> sample list (primary, layered rule, "
+            "additions and their order/bank); coordinate/length limits "
             "and truncating casts; repeat cap and node count; node defaults; sample suffix from index >= 2 tested before "
             "the cast; hit-sound low byte; non-negative durations; circle/slider arms "
             "agree on "
-            "combo rules. Not decided: path-string segmentation, sample/bank mapping.",
+            "combo rules. Not decided: the rest of the path-string grammar as values.",
             "spec-constant slices and sibling agreement over HIR/MIR"),
     'C15': ("Partial: stable sort by start_time/total_cmp precedes break processing precedes the velocity loop (S "
             "for phase order); leniency and per-mode clamp constants, multiplier clamp, base scoring distance, defaults; "
-            "every passed break forces a new combo (N). Not "
+            "every passed break forces a new combo, the break cursor starts at the first break and runs over all of them (N). Not "
             "decided: velocity/duration formulas as numbers, shift invariance.",
             "dominance (phase order) and spec-constant checks over MIR/HIR"),
     'C18': ("Strong: kill-before-use (S) of CurveBuffers.path/lengths/vertices from every pub entry point taking the "
@@ -118,10 +127,11 @@ TEXT = {
             "compile_fail witnesses"),
     'C19': ("Partial (N): progress is clamped to [0,1] and multiplied by the last cumulative length; the raw "
             "progress parameter reaches nothing but that clamp; position_at composes progress_to_dist, idx_of_dist, "
-            "interpolate_vertices on (path, lengths); numeric segment search; zero-length-segment guard, interpolation "
-            "weight and lerp "
-            "formula; owned and borrowed accessor families resolve to the same free functions. Not decided: arc-length "
-            "bound, vertex hits as values.",
+            "interpolate_vertices on (path, lengths); numeric segment search; interpolate_vertices as a symbolic decision "
+            "table (empty/first/beyond/zero-length segment/lerp with its weight); length fit: as many cumulative lengths as "
+            "vertices on every exit and indices in range (vector-length shape analysis), closed form of the fitted end "
+            "point; owned and borrowed accessor families resolve to the same free functions. Not decided: arc-length "
+            "bound as a value.",
             "spec-constant slices and sibling agreement over HIR/MIR"),
     'C20': ("Partial: the tick buffer is killed on construction before any use (S) and is exclusively borrowed while "
             "an iterator lives (witness); state order Head->Ticks->LastTick->Tail->Done (S); repeat emission is not "
